@@ -128,6 +128,32 @@ static void c15Body(Env& env, const std::string& stage, int n, const dom::Alphab
   });
 }
 
+
+// C05 on EVERY automaton with n states over a small alphabet (implicit index = rule bit mask x final mask; nothing is stored)
+static void c05All(Env& env, const std::string& stage, int n, const dom::Alphabet& sig) {
+  auto D = std::make_shared<dom::TADomain>(n, sig, 0);   // only for the rule universe and printing
+  int R = (int)D->U.size(); if (R + n > 40) throw std::runtime_error("c05All: domain too large");
+  env.noteNum(stage + ".rule_universe", R);
+  ParallelOpts o; o.stage = stage; o.size = (uint64_t)1 << (R + n); o.block = 1 << 14; o.caseTimeout = 20;
+  auto mk = [D, R, n](uint64_t idx) { ref::TA A; for (int i = 0; i < R; i++) if (idx >> i & 1) A.rules.insert(D->U[i]); for (int q = 0; q < n; q++) if (idx >> (R + q) & 1) A.finals.insert(q); return A; };
+  o.describe = [D, mk](uint64_t idx) { return D->str(mk(idx)); };
+  o.run = [D, mk, R, n](uint64_t idx, Ctx& c) {
+    if (!(idx >> R)) return;                                   // no final state: language empty, covered by the smaller domains
+    ref::TA A = mk(idx); c.evals(); bool empty = ref::emptyLang(A); if (empty && A.rules.size() > 4) return;   // large empty-language automata: skipped (counted as evaluated, not as non-trivial)
+    if (!empty) c.nontrivial(); c.count(empty ? "lang_empty" : "lang_nonempty"); if (c.wantSample() && !empty && A.rules.size() >= 8) c.sample(D->str(A));
+    ExplicitTreeAut a = dom::build(A);
+    try { ExplicitTreeAut r = a.Reduce(); ref::TA Rr = dom::readBack(r); uint64_t w = A.rules.size();
+      if (Rr.states().size() < A.states().size()) c.count("reduced_states");
+      if (!ref::equalLang(A, Rr)) c.viol("Reduce", "language_changed", {"all_automata_domain"}, det(*D, A, "result: " + D->str(Rr)), w);
+      else if (Rr.states().size() > A.states().size() || Rr.rules.size() > A.rules.size()) c.viol("Reduce", "more_states_or_rules", {"all_automata_domain"}, det(*D, A, "result: " + D->str(Rr)), w);
+      else if (!isQuotientImage(A, Rr)) c.viol("Reduce", "state_not_an_image", {"all_automata_domain"}, det(*D, A, "result: " + D->str(Rr)), w);
+    } catch (std::exception& e) { c.viol("Reduce", "exception", {"all_automata_domain"}, det(*D, A, e.what()), A.rules.size()); } };
+  env.parallel(o);
+}
+static const dom::Alphabet SIG_ABG1 = {{0, 0, 1}, {"a", "b", "g"}};
+static Register b11("c05.all.n3abg1", "C05", "EVERY automaton with 3 states over {a:0,b:0,g:1} (2^15 rule sets x final sets)", [](Env& e) { c05All(e, "c05.all.n3abg1", 3, SIG_ABG1); });
+static Register b12("c05.all.n4abg1", "C05", "EVERY automaton with 4 states over {a:0,b:0,g:1} (2^24 rule sets x 15 final sets = 251 M automata)", [](Env& e) { c05All(e, "c05.all.n4abg1", 4, SIG_ABG1); });
+static Register b13("c05.all.n4ag1", "C05", "EVERY automaton with 4 states over {a:0,g:1} (2^20 rule sets x final sets)", [](Env& e) { c05All(e, "c05.all.n4ag1", 4, dom::SigmaAF()); });
 static Register a1("c03.n3s3pk3", "C03", "all of TA(3,{a:0,f:1,g:2},<=3 rules)", [](Env& e) { c03Body(e, "c03.n3s3pk3", 3, dom::Sigma3p(), 3); });
 static Register a2("c03.n3s3pk4", "C03", "all of TA(3,{a:0,f:1,g:2},<=4 rules)", [](Env& e) { c03Body(e, "c03.n3s3pk4", 3, dom::Sigma3p(), 4); });
 static Register a3("c03.n2s3k6", "C03", "all of TA(2,{a:0,b:0,f:1,g:2},<=6 rules)", [](Env& e) { c03Body(e, "c03.n2s3k6", 2, dom::Sigma3(), 6); });
